@@ -281,4 +281,7 @@ Example ex_writes_abandon : exists o pts,
   rmap snd (objs_call ZOps objs [1] 0 (ReqGS fq 0)) = Ok o /\ fresh_call ZOps 1 (CallG fq pp) = Ok o /\
   abandoned_call ZOps 1 (CallG fq pp) 2 = Ok (Some pts) /\ pts = [[20; -31]; [36; -31]] /\
   rmap snd (objs_call ZOps (objs_abandon objs 0 (mkObj 7 3 2 0 [1; 2; 3] pp)) [1] 0 (ReqG fq pp)) = Ok o.
-Proof. do 2 eexists. cbv zeta. repeat split; vm_compute; reflexivity. Qed.
+Proof.
+  do 2 eexists. cbv zeta. split; [vm_compute; reflexivity|]. split; [vm_compute; reflexivity|]. split; [vm_compute; reflexivity|].
+  split; [reflexivity|]. vm_compute; reflexivity.
+Qed.
